@@ -111,6 +111,10 @@ func runC16Stack(c *core.Ctx) {
 					c.Event("peer%d answers getdata with the first %d of %d bytes and stalls", p.ID, cut, len(full))
 					c.Fault("source:stream-stalls-mid-block")
 					out = append(out, full[:cut]...)
+					// silence means silence: a pong sent now would be read as the continuation of the
+					// block (hostile transaction bytes are C15's subject, and the dependency's handling
+					// of declared lengths is known finding KF20/KF21)
+					p.AutoPong = false
 				default:
 					c.Event("peer%d ignores getdata", p.ID)
 					c.Fault("source:request-ignored")
